@@ -4,6 +4,7 @@ left-handed sensors flip x; pixel_agg reduces over exactly each sensor's pixels.
 -/
 import MagpyVerif.Lemmas.Level2Shape
 import MagpyVerif.Lemmas.OctaCarrier
+import MagpyVerif.Lemmas.Level2Post
 namespace MagpyVerif.C04
 open MagpyVerif MagpyVerif.Level2
 variable {G V : Type}
@@ -126,6 +127,98 @@ example : (∃ out, getBH exFlip exMin exMax exEntries exSensorsMixed false fals
     simp only [exSensorsMixed, List.mem_cons, List.not_mem_nil, or_false] at hk
     rcases hk with rfl | rfl <;> simp [pixNum]
 
+
+/-! ### pixel_agg as ANY reduction, in the order of the code (c03post)
+
+`Model/Level2.getBHF`: the post-processing with `pixel_agg_func` an arbitrary function of the pixel list (what
+`getattr(np, pixel_agg)` is).  The order of the code: every pixel value is first brought into ITS sensor's frame
+(rotation by the sensor's orientation at that path index, x-flip for a left-handed sensor), then the reduction runs
+over that sensor's own pixels.  Aggregating first and rotating the aggregate would be a different function for
+non-linear reductions (Props/C03 `aggregate_then_rotate_not_covariant`). -/
+section aggAny
+variable [Group G] [AddCommGroup V] [DistribMulAction G V] [BEq G] [LawfulBEq G]
+
+/-- element `(l, m, k)` of the array returned with `pixel_agg = f` is `f` of pixel list `[l][m][k]` of the tensor the
+same call computes before aggregation — both code branches (equal pixel shapes: reshape and reduce over the pixel
+axes; different shapes: `np.split` at the cumulative pixel indices), any `f` -/
+theorem pixel_agg_any_is_reduction_end_to_end (flipX : V → V)
+    (entries : List (Entry G V)) (sensors : List (Sens G V)) (f : List V → V)
+    (out : Out V) (hs : ∀ k ∈ sensors, k.WF)
+    (h : getBHF flipX entries sensors false false (some f) = .ok out) (l m k : Nat)
+    (hm : m < pathLen (entries.flatMap Entry.leaves) sensors) (hk : k < sensors.length) :
+    out.data[(l * pathLen (entries.flatMap Entry.leaves) sensors + m) * sensors.length + k]? =
+      (((tensor flipX entries sensors)[l]?.bind (·[m]?)).bind (·[k]?)).map f := by
+  have hok := not_bad_of_getBHF_ok h
+  have hne : sensors ≠ [] := fun hs => hok (Or.inr (Or.inl hs))
+  obtain ⟨k0, ks, hks⟩ := List.exists_cons_of_ne_nil hne
+  have hk0 : sensors.head? = some k0 := by rw [hks]; rfl
+  have hr := coreBF_rect flipX entries sensors false (some f) hok hs k0 hk0
+  rw [getBHF_ok flipX entries sensors false false (some f) hok] at h
+  cases h
+  simp only [Bool.false_eq_true, if_false, Option.isNone_some] at hr ⊢
+  have := flat4_getElem? hr l m k 0 hm hk Nat.one_pos
+  rw [Nat.mul_one, Nat.add_zero] at this
+  rw [this]
+  simp only [coreBF, Bool.false_eq_true, if_false, id]
+  exact aggTF_getElem? f _ l m k
+
+/-- **C04: pixel_agg is the reduction of the sensor-frame values** — for any reduction `f`, any number and nesting of
+sources, any sensors (different pixel shapes allowed), the element for source entry `e` (index `l`), path index `m`
+and sensor `s` (index `k`) of the array returned with `pixel_agg = f` is
+
+  `f [ flip?( R_s(m)⁻¹ • B_e(R_s(m) • px + P_s(m)) )  for px in s.pixels ]`
+
+— `f` over exactly `s`'s own pixels `px`, each value being the global field of `e` (sum over its leaves, each at its own
+pose `m`) at the pixel's global position, rotated into `s`'s frame at path index `m` and x-flipped iff `s` is
+left-handed, BEFORE `f` is applied.  `R_s(m)`, `P_s(m)`: the sensor's pose at `m`, staying at its last pose beyond
+the end of its path. -/
+theorem pixel_agg_is_reduction_of_sensor_frame_values (flipX : V → V)
+    (entries : List (Entry G V)) (sensors : List (Sens G V)) (f : List V → V)
+    (out : Out V) (hs : ∀ k ∈ sensors, k.WF)
+    (h : getBHF flipX entries sensors false false (some f) = .ok out) (l m k : Nat)
+    (e : Entry G V) (s : Sens G V) (hl : entries[l]? = some e)
+    (hm : m < pathLen (entries.flatMap Entry.leaves) sensors) (hk : sensors[k]? = some s)
+    (r : G) (p : V) (hr : clampGet s.ori m = some r) (hp : clampGet s.pos m = some p) :
+    out.data[(l * pathLen (entries.flatMap Entry.leaves) sensors + m) * sensors.length + k]? =
+      some (f (s.pixels.map fun px =>
+        let v := r⁻¹ • ((e.leaves.map fun src => level1 src m (r • px + p)).sum)
+        if s.left then flipX v else v)) := by
+  have hok := not_bad_of_getBHF_ok h
+  have he : ∀ e ∈ entries, e.leaves ≠ [] := fun e he hl => hok (Or.inr (Or.inr (Or.inl ⟨e, he, hl⟩)))
+  rw [pixel_agg_any_is_reduction_end_to_end flipX entries sensors f out hs h l m k hm
+    (List.getElem?_eq_some_iff.mp hk).1, tensor_eq_spec flipX entries sensors he hs,
+    specTensor_pixels flipX entries sensors l m k e s hl hm hk, Option.map_some,
+    sensor_reading flipX e s m r p hr hp]
+
+/-- the `Agg` names the integer driver runs (sum / min / max) are instances: same statement for `getBH` -/
+theorem pixel_agg_named_is_reduction_of_sensor_frame_values (flipX : V → V) (vmin vmax : V → V → V)
+    (entries : List (Entry G V)) (sensors : List (Sens G V)) (agg : Agg) (hagg : agg ≠ .none)
+    (out : Out V) (hs : ∀ k ∈ sensors, k.WF)
+    (h : getBH flipX vmin vmax entries sensors false false agg = .ok out) (l m k : Nat)
+    (e : Entry G V) (s : Sens G V) (hl : entries[l]? = some e)
+    (hm : m < pathLen (entries.flatMap Entry.leaves) sensors) (hk : sensors[k]? = some s)
+    (r : G) (p : V) (hr : clampGet s.ori m = some r) (hp : clampGet s.pos m = some p) :
+    out.data[(l * pathLen (entries.flatMap Entry.leaves) sensors + m) * sensors.length + k]? =
+      some (aggList agg vmin vmax (s.pixels.map fun px =>
+        let v := r⁻¹ • ((e.leaves.map fun src => level1 src m (r • px + p)).sum)
+        if s.left then flipX v else v)) := by
+  rw [getBH_eq_F] at h
+  have hfn : agg.fn vmin vmax = some (aggList agg vmin vmax) := by cases agg <;> first | rfl | exact absurd rfl hagg
+  rw [hfn] at h
+  exact pixel_agg_is_reduction_of_sensor_frame_values flipX entries sensors _ out hs h l m k e s hl hm hk r p hr hp
+end aggAny
+
+-- non-vacuity: on the scene `Level2.Example` with different pixel shapes ((2,) and (3,)) the call with an arbitrary
+-- reduction (here: the last pixel value — neither linear nor symmetric) is accepted and has shape (2, 2, 2, 1)
+open Level2.Example in
+example : (∃ out, getBHF exFlip exEntries exSensorsMixed false false (some fun l => l.getLastD 0) = .ok out ∧
+      out.shape = [2, 2, 2, 1]) ∧
+    (∀ k ∈ exSensorsMixed, k.ori ≠ [] ∧ k.pos.length = k.ori.length ∧ k.pixels.length = pixNum k) := by
+  refine ⟨⟨_, getBHF_ok _ _ _ _ _ _ (by simp [BadInputF, exEntries, exSensorsMixed, Entry.leaves]), ?_⟩, ?_⟩
+  · simp [shape0F, exPathLenMixed]; simp [exEntries, exSensorsMixed]
+  · intro k hk
+    simp only [exSensorsMixed, List.mem_cons, List.not_mem_nil, or_false] at hk
+    rcases hk with rfl | rfl <;> simp [pixNum]
 
 /-! ### on the carrier the driver computes with (AUDIT X1)
 
